@@ -287,7 +287,7 @@ def _validate_once(lines, tag, spec="GATrace"):
     mpath = os.path.join(SPEC, "trace", spec + ".tla")
     cpath = os.path.join(SPEC, "trace", spec + ".cfg")
     try:
-        rc, out = tlc(mpath, cpath, workers=1, timeout=900, env={"TRACE": tf}, java_opts="-Dtlc2.tool.queue.IStateQueue=StateDeque", tag=tag + "v", xmx="3g")
+        rc, out = tlc(mpath, cpath, workers=1, timeout=900, env={"TRACE": tf}, java_opts="-Dtlc2.tool.queue.IStateQueue=StateDeque", tag=tag + "v", xmx="2g")
     finally:
         shutil.rmtree(d, ignore_errors=True)
     m = _REJ_RE.search(out)
@@ -300,7 +300,11 @@ def _validate_once(lines, tag, spec="GATrace"):
         return ("reject", int(ls[-1]) - 1 if ls else 1, "invariant %s violated after this event" % (inv.group(1) if inv else "?"))
     if "Error:" in out or rc != 0:
         if "Postcondition" not in out:
-            raise ToolError("TLC failed during trace validation:\n" + out[-5000:])
+            os.makedirs(os.path.join(WORK, "tlc_errors"), exist_ok=True)
+            ef = os.path.join(WORK, "tlc_errors", tag + ".log")
+            open(ef, "w").write(out)
+            heads = [l for l in out.splitlines() if ("rror" in l or "xception" in l or "overflow" in l.lower())][:12]
+            raise ToolError("TLC failed during trace validation (full output: %s):\n%s\n...\n%s" % (ef, "\n".join(h[:400] for h in heads), out[-1500:]))
     gen, dist = parse_states(out)
     if dist - 1 != len(lines):
         # diameter check is done by the postcondition; this is a belt-and-braces check
@@ -309,7 +313,7 @@ def _validate_once(lines, tag, spec="GATrace"):
     return ("accept", dist, "")
 
 
-def validate_cases(cases, tag, chunk_events=6000, par=8, spec="GATrace"):
+def validate_cases(cases, tag, chunk_events=6000, par=6, spec="GATrace"):
     """Validates cases (list of (name, lines)).  Returns (accepted_names, rejects) where rejects is a
     list of dict(case, line_no_in_case, event, reason).  Every rejected case is isolated and the rest
     of its chunk re-validated, so all violating cases of a run are reported."""
